@@ -20,6 +20,11 @@
 //!   poll <j>           poll the (j mod len)-th entry of the ready list
 //!   idle               FIFO polls until no task is woken
 //!   get                synchronous read (no state change; the observable carries the value)
+//!   bread              a stand-in `<Suspense/>` boundary (a child owner providing a `SuspenseContext`) reads the value
+//!                      synchronously (`get_untracked()` under that owner)
+//!   kinds res | res-arc | res-blocking = the real `leptos_server::Resource` / `ArcResource` (source fn = all sources,
+//!        `refetch` = `Resource::refetch()`); once | once-arc = `OnceResource` / `ArcOnceResource` (no `set`, `refetch`,
+//!        `mset`, `attach b`: no such API / nothing to write)
 //!   -> `rl=<d,e,a0..|-> val=<v|-> ld=<0|1> nf=<n> fin=<a.b|-> aw=<r0,r1..|-> eff=<d:m;..|-> ## <verdict>`
 //!      rl = ready list as task kinds (d = the derived's task, e = the effect's, a<i> = i-th awaiter),
 //!      val/ld = untracked read of the value / `ready()` not yet resolved, nf = fetches started,
@@ -39,7 +44,11 @@
 use futures::channel::oneshot;
 use futures::FutureExt;
 use hx_common::{parse_cli, quiet_panics, sched, Cmd, Rng};
+use leptos_server::{ArcOnceResource, ArcResource, OnceResource, Resource};
+use reactive_graph::computed::suspense::SuspenseContext;
 use reactive_graph::computed::{ArcAsyncDerived, ArcMemo, AsyncDerived};
+use reactive_graph::owner::provide_context;
+use slotmap::{DefaultKey, SlotMap};
 use reactive_graph::effect::Effect;
 use reactive_graph::graph::ReactiveNode;
 use reactive_graph::owner::{LocalStorage, Owner};
@@ -65,6 +74,8 @@ struct Fetch {
     inputs: Vec<u32>,
     tx: Option<oneshot::Sender<u32>>,
     returned: bool,
+    /// value of the op clock when the fetcher was called
+    born: usize,
 }
 #[derive(Clone, Copy)]
 enum W {
@@ -78,10 +89,35 @@ struct Shared {
     writers: Vec<W>,
     aw: Vec<Option<u32>>,
     elog: Vec<(Option<u32>, Option<u32>)>,
+    /// number of ops applied so far
+    clock: usize,
 }
 type Sh = Arc<Mutex<Shared>>;
 
 type Fut = Pin<Box<dyn Future<Output = u32> + Send>>;
+
+/// one fetch: register the receiver with the inputs it was started on, await it
+fn start_fetch(sh: &Sh, inputs: Vec<u32>) -> Fut {
+    let (tx, rx) = oneshot::channel::<u32>();
+    let f = {
+        let mut g = sh.lock().unwrap();
+        let born = g.clock;
+        g.fetches.push(Fetch { inputs, tx: Some(tx), returned: false, born });
+        g.fetches.len() - 1
+    };
+    let sh = sh.clone();
+    Box::pin(async move {
+        match rx.await {
+            Ok(v) => {
+                let mut g = sh.lock().unwrap();
+                g.fetches[f].returned = true;
+                g.writers.push(W::Fetch(f));
+                v
+            }
+            Err(_) => futures::future::pending().await,
+        }
+    })
+}
 
 fn fetcher(sh: Sh, srcs: Vec<ArcRwSignal<u32>>, via: Option<ArcMemo<Vec<u32>>>) -> impl Fn() -> Fut + Send + Sync + 'static {
     move || {
@@ -90,24 +126,7 @@ fn fetcher(sh: Sh, srcs: Vec<ArcRwSignal<u32>>, via: Option<ArcMemo<Vec<u32>>>) 
             Some(m) => m.get(),
             None => srcs.iter().map(|s| s.get()).collect(),
         };
-        let (tx, rx) = oneshot::channel::<u32>();
-        let f = {
-            let mut g = sh.lock().unwrap();
-            g.fetches.push(Fetch { inputs, tx: Some(tx), returned: false });
-            g.fetches.len() - 1
-        };
-        let sh = sh.clone();
-        Box::pin(async move {
-            match rx.await {
-                Ok(v) => {
-                    let mut g = sh.lock().unwrap();
-                    g.fetches[f].returned = true;
-                    g.writers.push(W::Fetch(f));
-                    v
-                }
-                Err(_) => futures::future::pending().await,
-            }
-        })
+        start_fetch(&sh, inputs)
     }
 }
 
@@ -119,6 +138,19 @@ enum Kind {
     Arena,
     ArcUnsync,
     ArenaUnsync,
+    Res,
+    ResArc,
+    ResBlocking,
+    Once,
+    OnceArc,
+}
+impl Kind {
+    fn is_res(self) -> bool {
+        matches!(self, Kind::Res | Kind::ResArc | Kind::ResBlocking)
+    }
+    fn is_once(self) -> bool {
+        matches!(self, Kind::Once | Kind::OnceArc)
+    }
 }
 #[derive(Clone, Copy, PartialEq, Debug)]
 enum EffKind {
@@ -133,6 +165,24 @@ enum Dv {
     A(ArcAsyncDerived<u32>),
     R(AsyncDerived<u32>),
     L(AsyncDerived<u32, LocalStorage>),
+    RA(ArcResource<u32>),
+    RR(Resource<u32>),
+    OA(ArcOnceResource<u32>),
+    OR(OnceResource<u32>),
+}
+/// the same expression for every flavour of handle
+macro_rules! each {
+    ($self:expr, $d:ident => $e:expr) => {
+        match $self {
+            Dv::A($d) => $e,
+            Dv::R($d) => $e,
+            Dv::L($d) => $e,
+            Dv::RA($d) => $e,
+            Dv::RR($d) => $e,
+            Dv::OA($d) => $e,
+            Dv::OR($d) => $e,
+        }
+    };
 }
 impl Dv {
     fn new(kind: Kind, init: Option<u32>, f: impl Fn() -> Fut + Send + Sync + 'static) -> Dv {
@@ -145,66 +195,98 @@ impl Dv {
             (Kind::ArcUnsync, i) => Dv::A(ArcAsyncDerived::new_unsync_with_initial(i, f)),
             (Kind::ArenaUnsync, None) => Dv::L(AsyncDerived::new_unsync(f)),
             (Kind::ArenaUnsync, i) => Dv::L(AsyncDerived::new_unsync_with_initial(i, f)),
+            _ => unreachable!(),
+        }
+    }
+    /// the real `leptos_server` resource over the source signals
+    fn new_resource(kind: Kind, sh: Sh, srcs: Vec<ArcRwSignal<u32>>) -> Dv {
+        let source = move || srcs.iter().map(|s| s.get()).collect::<Vec<u32>>();
+        let fetch = move |inputs: Vec<u32>| start_fetch(&sh, inputs);
+        match kind {
+            Kind::ResArc => Dv::RA(ArcResource::new(source, fetch)),
+            Kind::Res => Dv::RR(Resource::new(source, fetch)),
+            Kind::ResBlocking => Dv::RR(Resource::new_blocking(source, fetch)),
+            _ => unreachable!(),
+        }
+    }
+    /// the real `leptos_server` once-resource: one future, started on the inputs given
+    fn new_once(kind: Kind, sh: Sh, inputs: Vec<u32>) -> Dv {
+        let fut = start_fetch(&sh, inputs);
+        match kind {
+            Kind::OnceArc => Dv::OA(ArcOnceResource::new(fut)),
+            Kind::Once => Dv::OR(OnceResource::new(fut)),
+            _ => unreachable!(),
         }
     }
     fn get_untracked(&self) -> Option<u32> {
-        match self {
-            Dv::A(d) => d.get_untracked(),
-            Dv::R(d) => d.get_untracked(),
-            Dv::L(d) => d.get_untracked(),
-        }
+        each!(self, d => d.get_untracked())
     }
     /// tracked read (inside the subscriber effect)
     fn get(&self) -> Option<u32> {
-        match self {
-            Dv::A(d) => d.get(),
-            Dv::R(d) => d.get(),
-            Dv::L(d) => d.get(),
-        }
+        each!(self, d => d.get())
     }
     fn mset(&self, v: u32) {
         match self {
             Dv::A(d) => d.set(Some(v)),
             Dv::R(d) => d.set(Some(v)),
             Dv::L(d) => d.set(Some(v)),
+            Dv::RA(d) => d.set(Some(v)),
+            Dv::RR(d) => d.set(Some(v)),
+            Dv::OA(_) | Dv::OR(_) => unreachable!(),
         }
     }
-    fn mark_dirty(&self) {
+    fn refetch(&self) {
         match self {
             Dv::A(d) => d.mark_dirty(),
             Dv::R(d) => d.mark_dirty(),
             Dv::L(d) => d.mark_dirty(),
+            Dv::RA(d) => d.refetch(),
+            Dv::RR(d) => d.refetch(),
+            Dv::OA(_) | Dv::OR(_) => unreachable!(),
         }
     }
     /// the loading indication as the public API shows it: `ready()` does not resolve while loading
     fn loading(&self) -> bool {
-        match self {
-            Dv::A(d) => d.ready().now_or_never().is_none(),
-            Dv::R(d) => d.ready().now_or_never().is_none(),
-            Dv::L(d) => d.ready().now_or_never().is_none(),
-        }
+        each!(self, d => d.ready().now_or_never().is_none())
     }
     async fn await_value(self, how: char) -> u32 {
         match (self, how) {
             (Dv::A(d), 'v') => d.await,
             (Dv::R(d), 'v') => d.await,
             (Dv::L(d), 'v') => d.await,
-            (Dv::A(d), 'r') => {
-                d.ready().await;
-                d.get_untracked().unwrap_or(u32::MAX)
-            }
-            (Dv::R(d), 'r') => {
-                d.ready().await;
-                d.get_untracked().unwrap_or(u32::MAX)
-            }
-            (Dv::L(d), 'r') => {
-                d.ready().await;
-                d.get_untracked().unwrap_or(u32::MAX)
+            (Dv::RA(d), 'v') => d.await,
+            (Dv::RR(d), 'v') => d.await,
+            (Dv::OA(d), 'v') => d.await,
+            (Dv::OR(d), 'v') => d.await,
+            (this, 'r') => {
+                each!(&this, d => d.ready().await);
+                this.get_untracked().unwrap_or(u32::MAX)
             }
             (Dv::A(d), _) => *d.by_ref().await,
             (Dv::R(d), _) => *d.by_ref().await,
             (Dv::L(d), _) => *d.by_ref().await,
+            (Dv::RA(d), _) => *d.by_ref().await,
+            (Dv::RR(d), _) => *d.by_ref().await,
+            (Dv::OA(_), _) | (Dv::OR(_), _) => unreachable!(),
         }
+    }
+}
+
+/// a stand-in for a `<Suspense/>` boundary: an owner that provides a `SuspenseContext`, plus the task
+/// list the boundary watches
+struct Boundary {
+    owner: Owner,
+    tasks: ArcRwSignal<SlotMap<DefaultKey, ()>>,
+}
+impl Boundary {
+    fn new(parent: &Owner) -> Self {
+        let tasks = ArcRwSignal::new(SlotMap::new());
+        let owner = parent.child();
+        owner.with(|| provide_context(SuspenseContext { tasks: tasks.clone() }));
+        Boundary { owner, tasks }
+    }
+    fn pending(&self) -> usize {
+        self.tasks.read_untracked().len()
     }
 }
 
@@ -225,6 +307,13 @@ struct Live {
     cur_src: Vec<u32>,
     tags: BTreeSet<&'static str>,
     saw_stale: bool,
+    boundary: Option<Boundary>,
+    /// kind ('a' awaiter, 'r' reader spawned by a boundary read) of every task spawned after the set-up
+    spawned: Vec<char>,
+    /// op clock values: boundary reads, manual writes, the first poll of the derived's task
+    bread_at: Vec<usize>,
+    mset_at: Vec<usize>,
+    first_poll_d: Option<usize>,
 }
 
 fn opt(v: Option<u32>) -> String {
@@ -254,6 +343,11 @@ impl Live {
             cur_src: vec![],
             tags: BTreeSet::new(),
             saw_stale: false,
+            boundary: None,
+            spawned: vec![],
+            bread_at: vec![],
+            mset_at: vec![],
+            first_poll_d: None,
         }
     }
     fn teardown(&mut self) {
@@ -263,6 +357,7 @@ impl Live {
         self.torn = true;
         sched::reset();
         self.dv = None;
+        self.boundary = None;
         self.srcs.clear();
         {
             let mut g = self.sh.lock().unwrap();
@@ -281,6 +376,7 @@ impl Live {
     fn configure(&mut self, kind: Kind, srcs: Vec<u32>, init: Option<u32>, eff: EffKind, via_memo: bool) {
         let owner = Owner::new();
         owner.set();
+        self.boundary = Some(Boundary::new(&owner));
         self.owner = Some(owner);
         self.kind = kind;
         self.eff = eff;
@@ -294,7 +390,15 @@ impl Live {
         if via_memo {
             self.tags.insert("memo-source");
         }
-        let dv = Dv::new(kind, init, fetcher(self.sh.clone(), self.srcs.clone(), via));
+        let dv = if kind.is_res() {
+            self.tags.insert("resource");
+            Dv::new_resource(kind, self.sh.clone(), self.srcs.clone())
+        } else if kind.is_once() {
+            self.tags.insert("once-resource");
+            Dv::new_once(kind, self.sh.clone(), srcs.clone())
+        } else {
+            Dv::new(kind, init, fetcher(self.sh.clone(), self.srcs.clone(), via))
+        };
         if eff != EffKind::None {
             let memo = {
                 let srcs = self.srcs.clone();
@@ -345,7 +449,10 @@ impl Live {
         } else if id < self.aw_base {
             "e".into()
         } else {
-            format!("a{}", id - self.aw_base)
+            let k = id - self.aw_base;
+            let kind = self.spawned.get(k).copied().unwrap_or('?');
+            let n = self.spawned[..k.min(self.spawned.len())].iter().filter(|c| **c == kind).count();
+            format!("{kind}{n}")
         }
     }
 
@@ -400,12 +507,31 @@ impl Live {
             self.tags.insert("initial-fetch-dropped");
         }
         let settled = rl.is_empty() && all_resolved;
+        // ---- the boundary: its task list is non-empty while a load it has read from is in flight
+        let bp = self.boundary.as_ref().map(|b| b.pending()).unwrap_or(0);
+        let in_flight = !all_resolved;
+        // the loop takes the registered contexts when it starts a fetch: at the first poll of its task
+        // (initial future) and whenever it calls the fetcher again
+        let mut takes: Vec<usize> = self.first_poll_d.into_iter().collect();
+        for f in g.fetches.iter().skip(1) {
+            if takes.last() != Some(&f.born) {
+                takes.push(f.born);
+            }
+        }
+        let t_cur = takes.last().copied();
+        let t_prev = if takes.len() >= 2 { Some(takes[takes.len() - 2]) } else { None };
+        let covered = self.bread_at.iter().any(|b| t_prev.map(|p| *b > p).unwrap_or(true));
+        let mset_during = self.mset_at.iter().any(|m| t_cur.map(|c| *m > c).unwrap_or(true));
         let expected = match g.writers.last() {
             Some(W::Manual(v)) => Some(*v),
             _ => Some(fetch_fn(&self.cur_src)),
         };
         let verdict = if !allowed.contains(&val) {
             "fail fabricated"
+        } else if rl.is_empty() && in_flight && !mset_during && covered && bp == 0 {
+            "fail suspense-missed"
+        } else if rl.is_empty() && !in_flight && bp != 0 {
+            "fail suspense-stuck"
         } else if !settled {
             "ok"
         } else if ld {
@@ -424,7 +550,7 @@ impl Live {
             self.tags.insert("settled");
         }
         format!(
-            "rl={} val={} ld={} nf={} fin={} aw={} eff={} ## {}",
+            "rl={} val={} ld={} nf={} fin={} aw={} eff={} bp={} ## {}",
             join(rl.iter().map(|id| self.task_name(*id)).collect(), ","),
             opt(val),
             ld as u8,
@@ -432,6 +558,7 @@ impl Live {
             join(fin.iter().map(|v| v.to_string()).collect(), "."),
             join(g.aw.iter().map(|r| opt(*r)).collect(), ","),
             join(g.elog.iter().map(|(d, m)| format!("{}:{}", opt(*d), opt(*m))).collect(), ";"),
+            bp,
             verdict
         )
     }
@@ -455,8 +582,16 @@ impl Live {
                 "arena" => Kind::Arena,
                 "arc-unsync" => Kind::ArcUnsync,
                 "arena-unsync" => Kind::ArenaUnsync,
+                "res" => Kind::Res,
+                "res-arc" => Kind::ResArc,
+                "res-blocking" => Kind::ResBlocking,
+                "once" => Kind::Once,
+                "once-arc" => Kind::OnceArc,
                 _ => return BAD.into(),
             };
+            if (kind.is_res() || kind.is_once()) && (w.len() == 6 || *init != "-") {
+                return BAD.into();
+            }
             let vs: Option<Vec<u32>> = srcs.split(',').map(num).collect();
             let Some(vs) = vs else { return BAD.into() };
             if vs.is_empty() || vs.len() > 3 {
@@ -484,6 +619,14 @@ impl Live {
             return BAD.into();
         }
         let dv = self.dv.clone().unwrap();
+        if self.kind.is_once() && matches!(w.as_slice(), ["set", ..] | ["refetch"] | ["mset", ..] | ["attach", "b"]) {
+            return BAD.into();
+        }
+        let clock = {
+            let mut g = self.sh.lock().unwrap();
+            g.clock += 1;
+            g.clock
+        };
         match w.as_slice() {
             ["set", i, v] => {
                 let (Some(i), Some(v)) = (idx(i), num(v)) else { return BAD.into() };
@@ -501,7 +644,7 @@ impl Live {
                 } else {
                     self.tags.insert("refetch");
                 }
-                dv.mark_dirty();
+                dv.refetch();
             }
             ["mset", v] => {
                 let Some(v) = num(v) else { return BAD.into() };
@@ -511,6 +654,7 @@ impl Live {
                     self.tags.insert("manual-write-at-rest");
                 }
                 self.sh.lock().unwrap().writers.push(W::Manual(v));
+                self.mset_at.push(clock);
                 dv.mset(v);
             }
             ["complete", f] => {
@@ -542,6 +686,7 @@ impl Live {
                     g.aw.len() - 1
                 };
                 let sh = self.sh.clone();
+                self.spawned.push('a');
                 any_spawner::Executor::spawn_local(async move {
                     let v = dv.await_value(how).await;
                     sh.lock().unwrap().aw[i] = Some(v);
@@ -553,12 +698,35 @@ impl Live {
                 if r.len() >= 2 {
                     self.tags.insert("schedule-choice");
                 }
-                sched::poll_nth_ready(j);
+                if sched::poll_nth_ready(j) == Some(0) && self.first_poll_d.is_none() {
+                    self.first_poll_d = Some(clock);
+                }
             }
             ["idle"] => {
-                sched::run_until_idle(100_000);
+                for _ in 0..100_000 {
+                    match sched::poll_nth_ready(0) {
+                        None => break,
+                        Some(0) if self.first_poll_d.is_none() => self.first_poll_d = Some(clock),
+                        _ => {}
+                    }
+                }
             }
             ["get"] => {}
+            ["bread"] => {
+                let (loading, has_value) = (dv.loading(), dv.get_untracked().is_some());
+                self.tags.insert(match (has_value, loading) {
+                    (false, _) => "boundary-read-first-load",
+                    (true, false) => "boundary-read-idle",
+                    (true, true) => "boundary-read-reloading",
+                });
+                let before = sched::task_count();
+                let b = self.boundary.as_ref().unwrap();
+                let _ = b.owner.with(|| dv.get_untracked());
+                for _ in before..sched::task_count() {
+                    self.spawned.push('r');
+                }
+                self.bread_at.push(clock);
+            }
             _ => return BAD.into(),
         }
         self.obs()
@@ -714,6 +882,123 @@ fn gen_two_writes(g: &mut Gen) {
     }
 }
 
+/// every op sequence of length `len` over `alphabet` for each of the given `cfg` lines; then settle
+fn gen_exhaustive_cfgs(g: &mut Gen, len: usize, alphabet: &[&str], cfgs: &[String], prefix: &str) {
+    let n = alphabet.len();
+    for cfg in cfgs {
+        for code in 0..n.pow(len as u32) {
+            let mut c = code;
+            let mut l = vec![cfg.clone()];
+            let mut next_val = 1;
+            for _ in 0..len {
+                let a = alphabet[c % n];
+                c /= n;
+                if a == "set" {
+                    l.push(format!("set 0 {next_val}"));
+                    next_val += 1;
+                } else {
+                    l.push(a.to_string());
+                }
+            }
+            settle(&mut l, 3);
+            g.case(prefix, &l);
+        }
+    }
+}
+
+/// the stand-in Suspense boundary reading at every phase (no value + loading, value + idle, value +
+/// reloading), interleaved with writes, completions and polls, on every flavour of handle
+fn gen_suspense(g: &mut Gen, thorough: bool) {
+    let cfgs: Vec<String> = [
+        "cfg arc 0 - none", "cfg arena 0 - d", "cfg arc-unsync 0 7 none", "cfg arena-unsync 0 - none memo",
+        "cfg res 0 - none", "cfg res-arc 0 - d",
+    ]
+    .iter()
+    .map(|s| s.to_string())
+    .collect();
+    let alphabet = ["set", "complete last", "bread", "poll 0", "poll 1", "idle"];
+    for len in 1..=4 {
+        gen_exhaustive_cfgs(g, len, &alphabet, &cfgs, &format!("s{len}-"));
+    }
+    // a first load, then the phases again
+    let pre: Vec<String> = cfgs
+        .iter()
+        .flat_map(|c| ["idle;complete last;idle", "bread;idle;complete last;idle"].iter().map(move |p| format!("{c};{p}")))
+        .collect();
+    let alphabet2 = ["set", "complete last", "bread", "poll 0", "poll 1", "mset 50", "refetch"];
+    for cfgpre in &pre {
+        let n = alphabet2.len();
+        let len = if thorough { 4 } else { 3 };
+        for code in 0..n.pow(len as u32) {
+            let mut c = code;
+            let mut l: Vec<String> = cfgpre.split(';').map(|s| s.to_string()).collect();
+            let mut next_val = 1;
+            for _ in 0..len {
+                let a = alphabet2[c % n];
+                c /= n;
+                if a == "set" {
+                    l.push(format!("set 0 {next_val}"));
+                    next_val += 1;
+                } else {
+                    l.push(a.to_string());
+                }
+            }
+            settle(&mut l, 3);
+            g.case("t-", &l);
+        }
+    }
+}
+
+/// the real `leptos_server` resources: refetch, source writes and their interleavings with executor progress
+fn gen_resources(g: &mut Gen, thorough: bool) {
+    let mut cfgs: Vec<String> = vec![];
+    for (i, eff) in EFFS.iter().enumerate() {
+        cfgs.push(format!("cfg {} 0 - {}", ["res", "res-arc", "res-blocking", "res"][i], eff));
+    }
+    let alphabet = ["set", "refetch", "complete last", "poll 0", "poll 1", "idle", "mset 50", "attach"];
+    for len in 1..=3 {
+        gen_exhaustive_cfgs(g, len, &alphabet, &cfgs, &format!("q{len}-"));
+    }
+    let core = ["set", "refetch", "complete last", "poll 0", "idle"];
+    gen_exhaustive_cfgs(g, 4, &core, &cfgs, "q4-");
+    gen_exhaustive_cfgs(g, 5, &core, &cfgs[..2], "q5-");
+    if thorough {
+        gen_exhaustive_cfgs(g, 6, &core, &cfgs[..2], "q6-");
+        gen_exhaustive_cfgs(g, 4, &alphabet, &cfgs, "q4a-");
+    }
+    // after a first load
+    let loaded: Vec<String> = cfgs.iter().map(|c| format!("{c};idle;complete last;idle")).collect();
+    for cfgpre in &loaded {
+        let n = core.len();
+        for code in 0..n.pow(4) {
+            let mut c = code;
+            let mut l: Vec<String> = cfgpre.split(';').map(|s| s.to_string()).collect();
+            let mut next_val = 1;
+            for _ in 0..4 {
+                let a = core[c % n];
+                c /= n;
+                if a == "set" {
+                    l.push(format!("set 0 {next_val}"));
+                    next_val += 1;
+                } else {
+                    l.push(a.to_string());
+                }
+            }
+            settle(&mut l, 3);
+            g.case("ql-", &l);
+        }
+    }
+    // once-resources
+    let once: Vec<String> = ["cfg once 3 - none", "cfg once-arc 3 - d", "cfg once 1,2 - dm", "cfg once-arc 2 - md"]
+        .iter()
+        .map(|s| s.to_string())
+        .collect();
+    let oalpha = ["complete last", "attach", "attach r", "bread", "poll 0", "poll 1", "poll 2", "idle"];
+    for len in 1..=(if thorough { 4 } else { 3 }) {
+        gen_exhaustive_cfgs(g, len, &oalpha, &once, &format!("o{len}-"));
+    }
+}
+
 fn gen_random(g: &mut Gen, rng: &mut Rng) {
     let k = rng.range(1, 2);
     let srcs: Vec<String> = (0..k).map(|_| rng.below(4).to_string()).collect();
@@ -726,13 +1011,21 @@ fn gen_random(g: &mut Gen, rng: &mut Rng) {
         _ => "md",
     };
     let via = if rng.chance(2, 5) { "memo" } else { "sig" };
-    let mut l = vec![format!("cfg {} {} {} {} {}", rng.pick(&KINDS), srcs.join(","), init, eff, via)];
+    let flavour = rng.below(10);
+    let once = flavour == 9;
+    let mut l = vec![match flavour {
+        0..=5 => format!("cfg {} {} {} {} {}", rng.pick(&KINDS), srcs.join(","), init, eff, via),
+        6..=8 => format!("cfg {} {} - {}", rng.pick(&["res", "res-arc", "res-blocking"]), srcs.join(","), eff),
+        _ => format!("cfg {} {} - {}", rng.pick(&["once", "once-arc"]), srcs.join(","), eff),
+    }];
     let len = rng.range(3, 30);
     let poll_bias = rng.range(0, 8);
     let mut naw = 0;
     for _ in 0..len {
         match rng.below(20 + 2 * poll_bias) {
-            0..=4 => l.push(format!("set {} {}", rng.below(k), rng.below(10))),
+            0..=7 if once => l.push((*rng.pick(&["bread", "attach", "complete last", "poll 0"])).to_string()),
+            0..=3 => l.push(format!("set {} {}", rng.below(k), rng.below(10))),
+            4 => l.push("bread".into()),
             5 => l.push("refetch".into()),
             6 | 7 => l.push(format!("mset {}", rng.range(50, 59))),
             8..=11 => l.push("complete last".into()),
@@ -740,7 +1033,7 @@ fn gen_random(g: &mut Gen, rng: &mut Rng) {
             13 | 14 => {
                 if naw < 4 {
                     naw += 1;
-                    l.push(format!("attach {}", rng.pick(&["v", "v", "r", "b"])));
+                    l.push(format!("attach {}", if once { rng.pick(&["v", "r"]) } else { rng.pick(&["v", "v", "r", "b"]) }));
                 }
             }
             15 | 16 => l.push("idle".into()),
@@ -765,6 +1058,8 @@ fn generate(seed: u64, n: usize, path: &str, tier: &str) -> std::io::Result<()> 
     let core = ["set", "complete last", "mset 50", "poll 0", "poll 1"];
     gen_exhaustive(&mut g, 4, &core, &EFFS, "y4-");
     gen_two_writes(&mut g);
+    gen_suspense(&mut g, thorough);
+    gen_resources(&mut g, thorough);
     if thorough {
         gen_exhaustive(&mut g, 4, &alphabet, &EFFS, "x4-");
         gen_exhaustive(&mut g, 5, &core, &EFFS, "y5-");
